@@ -32,7 +32,9 @@ fn forever() -> Card {
 #[derive(Clone, Debug)]
 pub struct LoopShape {
     /// how the nested work is reached at each level: 0 = host stub call0, 1 = std.sorted_by_key,
-    /// 2 = std.min_by_key, 3 = plain script call, 4 = std.map (card based)
+    /// 2 = std.min_by_key, 3 = plain script call, 4 = std.map (card based), 5 = the native
+    /// function value call0 through a dynamic call, 6 = host stub try0 (swallows the callee's
+    /// failure and returns nil)
     pub via: Vec<u8>,
     /// the innermost level never terminates
     pub infinite: bool,
@@ -45,7 +47,7 @@ pub struct LoopShape {
 pub fn gen_shape(rng: &mut Rng) -> LoopShape {
     let depth = 1 + rng.usize(3);
     LoopShape {
-        via: (0..depth).map(|_| rng.below(5) as u8).collect(),
+        via: (0..depth).map(|_| rng.below(7) as u8).collect(),
         infinite: rng.chance(1, 3),
         work: (0..=depth).map(|_| rng.range(0, 12)).collect(),
         entries: 1 + rng.usize(4),
@@ -82,6 +84,11 @@ pub fn gen_loop_program(shape: &LoopShape) -> Module {
                 vec![c(CardBody::Function(format!("{name}_2"))), Card::read_var("tbl")],
             ),
             3 => Card::call_function(format!("{name}_0"), vec![]),
+            5 => Card::dynamic_call(
+                c(CardBody::NativeFunction("call0".into())),
+                vec![c(CardBody::Function(format!("{name}_0")))],
+            ),
+            6 => Card::call_native("try0", vec![c(CardBody::Function(format!("{name}_0")))]),
             _ => Card::call_function(
                 "std.map",
                 vec![c(CardBody::Function(format!("{name}_3"))), Card::read_var("tbl")],
